@@ -24,6 +24,10 @@ func propC04(c *Ctx) {
 	c.ruleDepCalls("C04-DEP-CALLS")
 	c.ruleShapeTags()
 	c.ruleRequiredArrays()
+	c.ruleTypeSwitchArgs("C04-TYPE-SWITCH-ARGS")
+	// a check that is skipped for "the same body again" must know what "the same" is
+	c.rulePositionNeedsFile("C04-POSITION-NEEDS-FILE")
+	c.ruleMemoCoverage("C04-MEMO-KEY-COVERS")
 }
 
 func (c *Ctx) ruleAccessorPair() {
